@@ -921,8 +921,15 @@ func IncoherentSchema(t *rapid.T) *SchemaSpec {
 		used[i] = map[string]bool{}
 
 		if rapid.Bool().Draw(t, "hasattr") {
-			specs[i].Attrs = []jsonapi.Attr{{Name: "x", Type: jsonapi.AttrTypeString}}
-			used[i]["x"] = true
+			// (an attribute may bear a name that relationships of other
+			// types bear)
+			an := "x"
+			if rapid.IntRange(0, 2).Draw(t, "attr-relname") == 0 {
+				an = rapid.SampledFrom(relPool).Draw(t, "attr-relname-which")
+			}
+
+			specs[i].Attrs = []jsonapi.Attr{{Name: an, Type: jsonapi.AttrTypeString}}
+			used[i][an] = true
 		}
 
 		// (a bare Type{Name: ...} literal has no maps at all)
